@@ -64,15 +64,22 @@ def handle (op : String) (args : List String) : Option String :=
     -- the harness holds the later writes back until the replayed event has been handed to the handler (replay read
     -- after exactly j writes); how far the store's dispatcher had got when the listener registered (k ≤ j) is
     -- not under its control: the answer is the set over k
-    let render := fun (k : Nat) =>
-      let r := answer h sync ({ state := .pending } :: path) k j c idx
+    -- `win` further writes are made after the handler's Watch call has returned and before the consumer side takes the
+    -- replayed event (a slow consumer): they follow the registration, so they are forwarded; the replay read itself
+    -- may fall anywhere among them
+    let win := ((argOf args "win").bind (·.toNat?)).getD 0
+    let full := ({ state := .pending } : Status) :: path
+    let renderAt := fun (k jr : Nat) =>
+      let r := answer h sync full k jr c idx
       match r.outcome with
       | .ok =>
-        let rs := (r.results.map fun (t, p, d) => encStr t ++ "|" ++ encStr p ++ "|" ++ (if d then "D" else "U")).foldr insertSorted []
+        let rs := (r.results.map fun (x : List Char × List Char × Bool) =>
+          encStr x.1 ++ "|" ++ encStr x.2.1 ++ "|" ++ (if x.2.2 = true then "D" else "U")).foldr insertSorted []
         "ok idx=" ++ toString r.index ++ " results=" ++ ",".intercalate rs
       | .err k => "err " ++ encKind k
       | .ctxDone => "ctx"
-    let answers := ((List.range (j + 1)).map render).eraseDups.foldr insertSorted []
+    let jrs := (List.range (win + 1)).map (· + j) |>.filter (· < full.length)
+    let answers := ((List.range (j + 1)).flatMap fun k => jrs.map fun jr => renderAt k jr).eraseDups.foldr insertSorted []
     match answers with
     | [a] => pure a
     | _ => pure ("oneof " ++ " || ".intercalate answers)
